@@ -349,6 +349,47 @@ func TestC02(t *testing.T) {
 					}
 				})
 
+				// (4b) forward compatibility: a v2 payload longer than the local definition with all its extensions (a newer
+				// peer with further extension fields), correct checksum over the bytes as sent: delivered, the known part decoded
+				if version == 2 && form == 1 && len(s.Payload) < 255 {
+					long := *s
+					extra := r.Bytes(1 + r.Intn(min(8, 255-len(s.Payload))))
+					extra[len(extra)-1] |= 1 // not truncatable
+					long.Payload = append(append([]byte(nil), s.Payload...), extra...)
+					ref.Seal(&long, mi.Layout.CRCExtra, nil)
+					lw := ref.Serialize(&long)
+					rep.Eval(1)
+					rep.Distinct(lw)
+					rep.Count("overlong_valid_frames", 1)
+					guard(rep, "kind=panic msg="+mi.Name, func() interface{} { return vh.Hex(lw) }, func() {
+						rd, ierr := newFrameSource(bytes.NewReader(lw), genv.drw, nil)
+						if ierr != nil {
+							return
+						}
+						fr, err := rd.Read()
+						if err != nil {
+							rep.Violation(fmt.Sprintf("kind=undelivered msg=%s", mi.Name), "a well-formed v2 frame with unknown trailing extension bytes and the correct checksum was not delivered: "+err.Error(),
+								map[string]interface{}{"wire": vh.Hex(lw), "local_size": mi.Layout.SizeExt, "payload_len": len(long.Payload)})
+							return
+						}
+						want := mi.Layout.Canonical(val, true)
+						m := frameMessage(fr)
+						if reflect.TypeOf(m) != want.Type() {
+							rep.Violation(fmt.Sprintf("kind=undelivered msg=%s", mi.Name), fmt.Sprintf("valid overlong frame delivered as %T", m), vh.Hex(lw))
+							return
+						}
+						if eq, diff := mi.Layout.BitEqual(reflect.ValueOf(m), want); !eq {
+							rep.Violation(fmt.Sprintf("kind=undelivered msg=%s", mi.Name), "valid overlong frame decoded to a different value (field "+diff+")", vh.Hex(lw))
+						}
+					})
+					// and the same bytes with the checksum of the known part only are NOT a valid frame
+					short := long
+					short.Checksum = s.Checksum
+					if short.Checksum != long.Checksum {
+						runStream(mi, "overlong-trimmed-crc", append(ref.Serialize(&short), sentinel...), 0)
+					}
+				}
+
 				// (3) soundness: systematic damage
 				flipBytes := len(wire)
 				if !vh.Thorough() && flipBytes > 64 && form != 0 {
@@ -525,10 +566,13 @@ func TestC02(t *testing.T) {
 	}
 	c02twins(rep, vh.Sub(seed, "c02-twins"))
 	c02reinit(rep, vh.Sub(seed, "c02-reinit"))
+	c02swap(rep, vh.Sub(seed, "c02-swap"))
 	rep.Floor("damaged_streams", 1000)
 	rep.Floor("valid_frames", 50)
 	rep.Floor("long_chunked_streams", 20)
 	rep.Floor("twin_dialect_frames", 100)
+	rep.Floor("swapped_dialect_frames", 100)
+	rep.Floor("overlong_valid_frames", 50)
 }
 
 // c02twins: two dialects that define ids 0 and 66 differently (hence different CRC_EXTRA values), one reader each, used
@@ -615,6 +659,100 @@ func c02twins(rep *vh.Report, r *vh.RNG) {
 					if _, e2 := rds[ri].rd.Read(); e2 == nil {
 						rep.Violation("kind=delivered msg=twin", "the tail of a rejected frame was delivered as a frame", wit)
 						return
+					}
+				}
+			}
+		}
+	}
+}
+
+// c02swap: one long-lived reader whose dialect changes between two Read calls (Reader.DialectRW replaced; the same
+// dialect.ReadWriter re-initialised in place with another Dialect). The gate works with the dialect configured at the
+// time of the Read, also for the id that was read last before the change.
+func c02swap(rep *vh.Report, r *vh.RNG) {
+	mk := func(m message.Message) *msgInfo {
+		mi := &msgInfo{Name: reflect.TypeOf(m).Elem().Name(), Msg: m, Type: reflect.TypeOf(m).Elem()}
+		l, err := ref.LayoutOf(mi.Type)
+		if err != nil {
+			rep.HarnessError(err.Error())
+			return nil
+		}
+		mi.Layout = l
+		return mi
+	}
+	defs := [2][]*msgInfo{{mk(&common.MessageHeartbeat{}), mk(&common.MessageRequestDataStream{})}, {mk(&MessageTwinZero{}), mk(&MessageTwinSixtySix{})}}
+	for _, d := range defs {
+		for _, mi := range d {
+			if mi == nil {
+				return
+			}
+		}
+	}
+	names := []string{"standard", "twin"}
+	mkDRW := func(which int) *dialect.ReadWriter {
+		drw, err := newDialectRW(defs[which][0].Msg, defs[which][1].Msg)
+		if err != nil {
+			rep.HarnessError(err.Error())
+			return nil
+		}
+		return drw
+	}
+	for mode := 0; mode < 2; mode++ {
+		cur := 0
+		drw := mkDRW(cur)
+		if drw == nil {
+			return
+		}
+		buf := &bytes.Buffer{}
+		rd := &frame.Reader{ByteReader: buf, DialectRW: drw}
+		if err := rd.Initialize(); err != nil {
+			rep.HarnessError(err.Error())
+			return
+		}
+		for step := 0; step < 40; step++ {
+			if step > 0 && step%3 == 0 {
+				cur = 1 - cur
+				if mode == 0 {
+					rd.DialectRW = mkDRW(cur)
+				} else {
+					drw.Dialect = &dialect.Dialect{Version: 3, Messages: []message.Message{defs[cur][0].Msg, defs[cur][1].Msg}}
+					if err := drw.Initialize(); err != nil {
+						rep.HarnessError(err.Error())
+						return
+					}
+				}
+			}
+			idx := ((step + 1) / 3) % 2 // the id stays the same across a change: the last one read before it is the first one after it
+			for _, sealedFor := range []int{cur, 1 - cur} {
+				mi := defs[sealedFor][idx]
+				sp, _ := validFrame(r, mi, 1+r.Intn(2), 0, false, nil)
+				wire := ref.Serialize(sp)
+				buf.Write(wire)
+				rep.Eval(1)
+				rep.Count("swapped_dialect_frames", 1)
+				var fr frame.Frame
+				var err error
+				guard(rep, "kind=panic", func() interface{} { return vh.Hex(wire) }, func() { fr, err = rd.Read() })
+				wit := map[string]interface{}{"frame": vh.Hex(wire), "sealed_for": names[sealedFor], "configured": names[cur], "step": step,
+					"change": []string{"Reader.DialectRW replaced", "dialect.ReadWriter re-initialised in place"}[mode]}
+				if sealedFor == cur {
+					if err != nil {
+						rep.Violation("kind=undelivered msg=swap", "a frame valid for the reader's current dialect was rejected after the dialect had been changed: "+err.Error(), wit)
+						return
+					}
+					if m := frameMessage(fr); reflect.TypeOf(m) != reflect.PtrTo(mi.Type) {
+						rep.Violation("kind=undelivered msg=swap", fmt.Sprintf("delivered as %T: decoded with an outdated definition", m), wit)
+						return
+					}
+				} else if err == nil {
+					rep.Violation("kind=delivered msg=swap", "a frame whose checksum is correct only for the dialect the reader had before was delivered", wit)
+					return
+				} else {
+					for buf.Len() > 0 {
+						if _, e2 := rd.Read(); e2 == nil {
+							rep.Violation("kind=delivered msg=swap", "the tail of a rejected frame was delivered as a frame", wit)
+							return
+						}
 					}
 				}
 			}
